@@ -49,6 +49,19 @@ fn kill_and_reap_child_proc_group(unreaped_pgid: Option<Pid>) -> Result<(), Erro
     }
 }
 
+/// Kills whatever is left of an evaluation's process group once the evaluation is over, however
+/// it ended: completed, timed out, aborted, or abandoned because the run returned.
+struct ProcessGroupGuard(Option<Pid>);
+
+impl Drop for ProcessGroupGuard {
+    fn drop(&mut self) {
+        if let Some(pgid) = self.0 {
+            // an already empty group yields ESRCH, which is fine
+            let _ = signal::killpg(pgid, Signal::SIGKILL);
+        }
+    }
+}
+
 #[allow(non_snake_case)]
 #[derive(Debug, Deserialize)]
 #[serde(deny_unknown_fields)]
@@ -117,6 +130,7 @@ impl AsyncObjectiveFunction for ObjFuncProcessDef {
             .map_err(Error::UnableToLaunchObjFuncProcess)?;
 
         let unreaped_pgid = child.id().map(|pgid| Pid::from_raw(pgid as i32));
+        let _group_guard = ProcessGroupGuard(unreaped_pgid);
 
         let child_result = get_child_result(child, &json_arg, seed, individual_id);
 
